@@ -67,6 +67,9 @@ def case(draw):
             steps.append(["N", cnt])
         else:
             steps.append(["A", cnt])
+    for st_ in steps:       # line offsets: /pat/1 ?pat?-1 /pat/0 ; they stay in force for n and N, a plain search or ^A ends them
+        if st_[0] in "/?" and st_[2] >= 0 and draw(st.integers(0, 4)) == 0:
+            st_.append(draw(st.sampled_from([0, 1, -1, 2, -2])))
     seen = False
     for st_ in steps:       # an empty pattern needs a previous one (without one the editor searches for the empty pattern: not in the statement)
         if st_[0] in "/?":
@@ -154,10 +157,12 @@ def simulate(c, mode):
     r = c["row"]
     o = min(c["off"], max(0, len(lines[r]) - 1))
     last = None      # (root, dir)
-    info = {"own_line": False, "failed": False}
+    so = None        # line offset in force
+    info = {"own_line": False, "failed": False, "offset": False}
     for st_ in c["steps"]:
         k, cnt = st_[0], max(1, st_[1])
         if k in "/?":
+            so = st_[3] if len(st_) > 3 else None
             if st_[2] < 0:
                 if last is None:
                     continue            # no previous pattern: the search fails, the cursor stays
@@ -181,6 +186,7 @@ def simulate(c, mode):
             rx.number_groups(root, 0)
             last = (root, 1)
             d = 1
+            so = None
         rr, oo = r, o
         ok = True
         for _ in range(cnt):
@@ -189,6 +195,14 @@ def simulate(c, mode):
                 ok = False
                 break
             rr, oo = res
+        if ok and so is not None:
+            info["offset"] = True
+            if not (0 <= rr + so < len(lines)):
+                ok = False          # "bad offset": the cursor stays
+            else:
+                rr += so
+                ind = len(lines[rr]) - len(lines[rr].lstrip(" \t"))
+                oo = ind
         if ok:
             if rr == r:
                 info["own_line"] = True
@@ -214,7 +228,8 @@ def run_case(env, c):
     for st_ in c["steps"]:
         cnt = str(st_[1]) if st_[1] else ""
         if st_[0] in "/?":
-            keys += cnt + st_[0] + (gen.delim_escape(strs[st_[2]], st_[0]) if st_[2] >= 0 else "") + "\n"
+            keys += cnt + st_[0] + (gen.delim_escape(strs[st_[2]], st_[0]) if st_[2] >= 0 else "") + \
+                ((st_[0] + "%d" % st_[3]) if len(st_) > 3 else "") + "\n"
         elif st_[0] in "nN":
             keys += cnt + st_[0]
         else:
@@ -227,7 +242,7 @@ def run_case(env, c):
         rx.number_groups(root, 0)
         nmatch = max(nmatch, sum(1 for l in lines if rx.search_prio(root, rx.Ctx(l, c["ic"]), 0, line_mode=True)))
     nt = nmatch >= 2 and (c["row"], c["off"]) != (0, 0) and (info["own_line"] or info["failed"])
-    cl = ["own_line" if info["own_line"] else "other_line", "some_failed" if info["failed"] else "all_found"]
+    cl = ["own_line" if info["own_line"] else "other_line", "some_failed" if info["failed"] else "all_found"] + (["line_offset"] if info.get("offset") else [])
     if r.timeout:
         return Outcome(True, False, cl + ["timeout"], inconclusive=True)
     if r.crashed():
